@@ -10,7 +10,7 @@ import (
 )
 
 func init() {
-	Explanations["C16"] = "Decides structural necessary conditions of 'formation/renewal yields a confirmable contract or leaves no trace': (R1, host) after every successful Wallet.FundV2Transaction(&T) a deferred ReleaseInputs covering T is registered before any other exit; with the deferred calls made explicit before every return and flag values followed per path, every exit reachable after the funding passes ReleaseInputs for T or the success edge of the wallet broadcast (so a disarming flag of either polarity is set only after the broadcast succeeded, and the release does not depend on a variable that failure exits shadow); and no store that replaces or shrinks T / T.SiacoinInputs can reach an exit without a restoring append (otherwise the deferred release misses the host's inputs); (R2, renter) in every renter function that funds a transaction, every return that is not definitely a success return and is reachable from the funding success edge is preceded by ReleaseInputs of that transaction; (R3) AddV2Contract/RenewV2Contract are dominated by the success edge of AddV2PoolTransactions for the same transaction set, and the wallet broadcast follows the contractor call; (R4) wherever package rhp builds a TransactionSet value or hands (basis, transactions) to the pool or the wallet, basis and transactions come from the same origin — two fields of one request/response value, or two results of one call (re-slicing allowed) — so a set is never labelled with a basis its proofs were not produced for. Signature and funding checks of the renter are decided under C10.R1/R2, the host's signature checks under C08.R4. NOT decided: that the set confirms once mined, behaviour when the final response is lost after the contract is recorded."
+	Explanations["C16"] = "Decides structural necessary conditions of 'formation/renewal yields a confirmable contract or leaves no trace': (R1, host) after every successful Wallet.FundV2Transaction(&T) a deferred ReleaseInputs covering T is registered before any other exit; with the deferred calls made explicit before every return and flag values followed per path, every exit reachable after the funding passes ReleaseInputs for T or the success edge of the wallet broadcast (so a disarming flag of either polarity is set only after the broadcast succeeded, and the release does not depend on a variable that failure exits shadow); and no store that replaces or shrinks T / T.SiacoinInputs can reach an exit without a restoring append (otherwise the deferred release misses the host's inputs); (R2, renter) in every renter function that funds a transaction, every return that is not definitely a success return and is reachable from the funding success edge is preceded by ReleaseInputs of that transaction; (R3) AddV2Contract/RenewV2Contract are dominated by the success edge of AddV2PoolTransactions for the same transaction set, and the wallet broadcast follows the contractor call; (R4) wherever package rhp builds a TransactionSet value or hands (basis, transactions) to the pool or the wallet, basis and transactions come from the same origin — two fields of one request/response value, or two results of one call (re-slicing allowed) — so a set is never labelled with a basis its proofs were not produced for. Signature and funding checks of the renter are decided under C10.R1/R2, the host's signature checks under C08.R4. (R5) the guard table of C10.R1 restricted to RPCFormContract, RPCRenewContract and rpcRefreshContract: success only after the host's signatures verified over the locally built contract / renewal. NOT decided: that the set confirms once mined, behaviour when the final response is lost after the contract is recorded."
 
 	register(&Rule{ID: "C16.R1", Prop: "C16", Floor: 9, Doc: "host: funded inputs are released on every failure exit (deferred release registered first, disarmed only after broadcast, transaction not shrunk)", Run: c16r1})
 	register(&Rule{ID: "C16.R2", Prop: "C16", Floor: 3, Doc: "renter: every non-success return after funding is preceded by ReleaseInputs", Run: c16r2})
